@@ -109,9 +109,20 @@ Theorem C01_merge_same_class : forall chain c e0 e1 r,
   (forall e : entry, In e f -> is_some (snd e) = is_some (snd e0)) ->
   has_optional (snd c) = false ->
   no_dealt chain f = true ->
-  parse_uniform order_std chain c f = Ok (spec_C01 f).
+  parse_uniform order_std chain dv_std dup_std DInconsistent c f = Ok (spec_C01 f).
 Proof. exact parse_uniform_meets. Qed.
 Print Assumptions C01_merge_same_class.
+
+(* the code sites whose shape the model depends on, read from the source on every run *)
+Theorem C01_code_shapes :
+  default_sources_gen = order_std /\ default_value_sources_gen = dv_std
+  /\ dup_chain_gen = dup_std /\ dup_else_gen = DInconsistent
+  /\ merge_resets_gen = MrSelf /\ init_caches_gen = true
+  /\ forwards_default_gen = true /\ pipeline_std_gen = true
+  /\ postprocess_arms_gen = post_arms_std
+  /\ deepest_first_gen = true /\ parse_is_parser_gen = true /\ merge_rest_sorted_gen = false.
+Proof. exact code_shapes. Qed.
+Print Assumptions C01_code_shapes.
 
 (* non-vacuity: falsy defaults, Optional members (None / instance), a member default instance, a caller default on one destination
    under AUTO; two destinations of one class with different default instances under ALWAYS_MERGE (both merge models agree) *)
